@@ -42,6 +42,10 @@ def check(ctx):
   _c03.r5(ctx)
   ctx.rule('C03.R2', 'shared with C03: the down-queue walk unlinks a removed / recovered member with its live predecessor (through a dead predecessor the queue head keeps pointing at a recovered member: its penalty is subtracted again on the next dispatch and its load falls far below zero)')
   _c03.r2(ctx)
+  from . import c12 as _c12o
+  ctx.rule('C12.R1', 'shared with C12: the per-call timeout event keeps its value and its place on the message (the balancer gate polls it: a dead call that looks live is dispatched and charged '
+                     'to a member through a sink stack nobody pops again)')
+  _c12o.observable_truthy(ctx, 'C12.R1')
 
 
 def r1_r2(ctx):
@@ -79,6 +83,11 @@ def r1_r2(ctx):
     og = [e for e in ev if e.kind == 'call' and U(e.node.func) == 'self._OnGet']
     ctx.ob('C04.R3', f, '_OnGet runs exactly once per acquisition, with the selected node', len(og) == 1 and [U(a) for a in og[0].node.args] == [node], '_OnGet calls: %d' % len(og),
            'the aperture counts outstanding requests through this hook')
+    if len(og) == 1:
+      ctx.ob('C04.R3', f, '_OnGet runs after the acquisition it reports has been charged', ev.index(og[0]) > i,
+             '_OnGet is called before load += 1 on the selected node',
+             'the hook may resize the aperture: a contraction that runs before the request is charged sees the selected member as unloaded, can take it out and close its channel '
+             'while the request about to be forwarded is not yet counted')
     ep = [e for e in ev if e.kind == 'stmt' and isinstance(e.node, ast.Assign) and 'MessageProperties.Endpoint' in U(e.node.targets[0])]
     ctx.ob('C04.R1', f, 'the chosen endpoint is stamped on the message', len(ep) == 1 and U(ep[0].node.value) == node + '.endpoint', 'endpoint stamp: %s' % [U(x.node) for x in ep],
            'metrics and diagnostics attribute the call to the member it was sent to', nontrivial=False)
